@@ -6,5 +6,4 @@ func cmdLex(in *bufio.Reader)     { panic("todo") }
 func cmdTLex(in *bufio.Reader)    { panic("todo") }
 func cmdComb(in *bufio.Reader)    { panic("todo") }
 func cmdParse(in *bufio.Reader)   { panic("todo") }
-func cmdSession(in *bufio.Reader) { panic("todo") }
 func cmdMemOps(in *bufio.Reader)  { panic("todo") }
